@@ -197,6 +197,26 @@ def run(ctx: Ctx):
     col.ob("G13", "S4", f"{where}::finished-paths-length-frozen", len(dec) == 1 and "gather" in inl_fw.text(dec[0].value.right),
            "the length of a path that had finished before the step is not decremented back (lengths would count "
            "the re-emitted eos)", rel, dec[0].lineno if dec else fwd.line, sample=u(dec[0]) if dec else None)
+    # the finished-path bookkeeping (forcing fills, length decrement) runs whenever an eos is configured - in BOTH finish_all_paths modes:
+    # a path below the top slot that ends early is carried along (and re-emits eos) while the top path is still unfinished. The
+    # conditions each of these statements is reached under are evaluated for eos unset / set x finish_all_paths False / True.
+    from sa.inteval import NotEvaluable as _NE, int_eval as _ie
+    for tag, node in ([("length-decrement", dec[0])] if len(dec) == 1 else []) + [(f"forcing-fill#{i_}", c_) for i_, c_ in enumerate(sorted(eos_fills, key=lambda c: c.lineno))]:
+        gs = [(t_, p_) for t_, p_ in guards_of(pm, node)]
+        badg = None
+        try:
+            for eos_v in (None, 3):
+                for fap in (False, True):
+                    reach = all(bool(_ie(inl_fw.expand(t_), {"self.eos": eos_v, "self.finish_all_paths": fap})) == p_ for t_, p_ in gs)
+                    if reach != (eos_v is not None) and badg is None:
+                        badg = (eos_v, fap, reach)
+        except _NE as e_:
+            col.undecided(f"{where}: the condition of the finished-path bookkeeping ({tag}) is outside the evaluated fragment ({e_})")
+            continue
+        col.ob("G13", "S4", f"{where}::finished-path-bookkeeping-whenever-eos-is-set[{tag}]", badg is None,
+               (f"with eos={'unset' if badg[0] is None else 'set'} and finish_all_paths={badg[1]} the {tag} is {'reached' if badg[2] else 'skipped'} "
+                f"(under {[(u(t_)[:50], p_) for t_, p_ in gs]}): a finished path that stays in the beam must be frozen in either mode, else its "
+                f"length counts the re-emitted eos / its score keeps changing") if badg else "", rel, node.lineno, sample=[u(t_)[:60] for t_, _ in gs])
     # the "already finished" mask: last token == eos AND the path is non-empty; the gather index is (len - 1)
     # clamped at 0, so the validity test must be exactly len - 1 >= 0 (len > 0)
     em = [n for n in own_nodes(fwd.node) if isinstance(n, ast.Assign) and isinstance(n.value, ast.BinOp)
